@@ -28,13 +28,19 @@ PROPERTY_ID = "C17"
 LEVEL = "exploration"
 RULE = (
     "A case is a database class (Basic / Gff / Genbank), 0-14 text-route features (GFF3 rows incl. multi-row features sharing an ID, "
-    "Parent links, rows without ID, shuffled row order; GenBank feature tables over 1-3 loci with join, complement in two styles, "
-    "single-base and </> partial locations), 0-8 user features added with add_feature (unsorted spans, strand +/-/None, shared names, "
+    "Parent links, rows without ID, shuffled row order, further key=value attributes incl. keys ending in ID / Parent (geneID=, myParent=) placed "
+    "before or after the ID= / Parent= fields or on rows without them; GenBank feature tables over 1-3 loci with join / order, complement in two styles, "
+    "single-base and </> partial locations, segments on different strands (complement(...) per segment or nested complement(join(...))), segments "
+    "listed in rotated order, locations continued over several lines, 9-digit coordinates, and legal locations the parser cannot represent: "
+    "between-base a^b, remote accession J00194.1:a..b, (a.b)..c, a..(b.c), one-of(a,b)..c, alone, complemented or inside a join), 0-8 user features added with add_feature (unsorted spans, strand +/-/None, shared names, "
     "parent ids, on_alignment), all with 1-3 spans on a 4-9 point lattice in 0..60 so that envelopes abut, nest and straddle, and 8 "
     "queries: every subset of {seqid, biotype, name, strand, attributes, on_alignment} x window in {none, start only, stop only, "
-    "(start, stop) from lattice points +-1} x allow_partial. Each query is answered by a linear scan of the harness record list and "
+    "(start, stop) from lattice points +-1} x allow_partial, with seqid / biotype / name / strand optionally given as a tuple, list or set of "
+    "1-3 values (any member matches). Each query is answered by a linear scan of the harness record list and "
     "compared as a multiset (spans, strand, name, start/stop extremes, parent, attributes) with get_features_matching, "
-    "get_records_matching, num_matches and subset. The history sub-check applies 1-8 operations (add_feature, update with/without "
+    "get_records_matching, num_matches and subset. A feature with an unrepresentable location may be skipped or kept as a row without spans "
+    "(it is identified by a reserved name and left out of every comparison; len / counts may include it), but every call must still answer "
+    "for all other records exactly as the linear scan says. The history sub-check applies 1-8 operations (add_feature, update with/without "
     "seqids, union with another db or itself, subset, re-wrapping via db=, deepcopy, pickle, to_rich_dict/from_dict, to_json/"
     "deserialise, write+reopen) and compares the full record multiset after every step, and that receivers/arguments are unchanged. "
     "The gff-blocks sub-check loads GFF text with a small lines_per_block. The loaders sub-check writes 1-3 flat files (GFF3 files of 0-5 "
@@ -51,13 +57,17 @@ RULE = (
 ASSUMPTIONS = [
     "windows are matched by envelope [min start, max stop) of a feature (the db start/stop columns), not per span; windows are non-empty (start < stop) and features non-empty",
     "start-only / stop-only queries select features whose envelope contains that point (start <= p < stop), as the code comments state",
-    "text fields are lower-case alphanumerics; attribute query strings are over the letters q,z,x,k,v,h only, which occur in no key word (ID, Parent, note, gene, locus_tag, raw_location, join, complement), so SQL LIKE wildcards and case folding do not enter",
+    "text fields are lower-case alphanumerics; attribute query strings are over the letters q,z,x,k,v,h only, which occur in no key word (ID, Parent, note, gene, locus_tag, raw_location, join, order, complement, one-of, J00194, geneID, transcriptID, myParent, oldParent, Alias, Name), so SQL LIKE wildcards and case folding do not enter",
     "attributes are matched as a substring (get_*_matching, subset); for GenBank records only the qualifier values written by the harness are searched for",
     "a query strand='+' may or may not return user features stored without a strand (add_feature documents \"Defaults to '+'\" but stores no value): such records are ignored in the comparison; GFF strand '.' is a value of its own",
     "on_alignment=False selects user records added with on_alignment=False plus all records of the gff/gb tables (which have no such column); on_alignment=True selects user records only; user records are always added through add_feature",
     "GFF3 IDs are unique per file except for the rows of one multi-row feature, which share seqid, type, strand and attributes; rows without ID are single-span and their generated name (unknown-N) is not compared; no '#' in text",
-    "GenBank features are wholly on one strand; unnamed features get a generated name that is not compared; GenBank attribute dicts are not compared field by field",
+    "a GenBank feature with segments on both strands is stored without a strand (LocationList.strand: '0=both'; add_records stores a strand only when it is non-zero) and with all its spans sorted; whether a strand query finds it is left open; unnamed features get a generated name that is not compared; GenBank attribute dicts are not compared field by field",
     "count_distinct rows are summed over tables before comparison",
+    "a GenBank location outside the grammar of parse_location_line (between-base, remote accession, (a.b) bounds, one-of) has no span representation on the sequence (parse_feature sets location=None): nothing documents whether such a feature is dropped or kept as a row without spans, so it is left out of all comparisons (reserved names u0-u2, never queried; len, num_matches, biotype_counts, count_distinct may or may not count it); all other features of the same LOCUS and db must load and be answered for exactly; order(...) is read like join(...); segments are stored sorted whatever order they are listed in",
+    "seqid / biotype / name / strand given as a tuple, list or set select records matching any member (tests/test_core/test_annotation_db.py::test_matching_conditions_IN and test_get_features_matching_multiple_biotype_*; the mechanism is generic over columns); containers are non-empty",
+    "GFF3 attribute keys are matched as whole keys: geneID=x is not an ID, myParent=x is not a Parent (GFF3 specification; merged_gff_records: 'Only records which have an ID field in the attributes get merged'); the attributes column is the unchanged text of column 9",
+    "a db class is only compared when the db holds records (an empty db is falsy: union and the collection loaders may substitute a default one)",
     "only class combinations documented as compatible are driven: update(other) when other's tables are a subset of the receiver's; union for every pair except Gff x Genbank",
     "loading several files, or one file after another into an existing db, gives the concatenation of what each file gives alone (load_annotations: 'We DO NOT check if a provided db already contains records'; tests/test_core/test_annotation_db.py::test_load_annotations_multi); every LOCUS record of a GenBank file contributes its features under its own locus name",
     "load_annotations(seqids=...) keeps exactly the records whose seqid (GFF column 1 / GenBank LOCUS name) is listed, for both formats (the docstring restricts only lines_per_block to GFF); seqids is a non-empty str or list",
@@ -71,6 +81,13 @@ SEQIDS = ["s1", "s2", "s3", "S1", "s_1", "sy1"]
 BIOTYPES = ["gene", "CDS", "cds", "exon", "mRNA", "misc_feature", "mis_feature", "misyfeature"]
 NAMES = ["n0", "n1", "n2", "g1", "t1", "N0", "n_1", "ny1", "G1"]
 TOK = "qzxkvh"
+# names reserved for GenBank features whose location the parser cannot represent (never in a query, dropped from observations)
+GHOST_NAMES = ["u0", "u1", "u2"]
+GHOSTS = ["between", "between", "between-join", "remote", "remote-join", "bounds-start", "bounds-stop", "one-of"]
+BIG = 123456000  # 9-digit GenBank coordinates
+# further GFF3 attribute keys (no letter of TOK); those ending in ID / Parent must not be taken for ID= / Parent=
+EXTRA_KEYS = ["geneID", "transcriptID", "myParent", "oldParent", "Alias", "Name"]
+EXTRA_VALUES = ["n0", "n1", "n2", "qq", "zk"]
 SCRATCH = os.path.join(os.path.dirname(os.path.dirname(os.path.abspath(__file__))), ".scratch")
 
 TABLES = {"basic": {"user"}, "gff": {"gff", "user"}, "gb": {"gb", "user"}}
@@ -125,6 +142,12 @@ def _gff_feats(draw, lat, seqids, n, base=0, named_pc=85):
             "attr": _token(draw) if _p(draw, 60) else None,
             "id_last": draw(st.booleans()),
         }
+        if _p(draw, 30):
+            # further key=value pairs: [key, value, placed before the ID/Parent fields?]
+            f["extra"] = [
+                [draw(st.sampled_from(EXTRA_KEYS)), draw(st.sampled_from(EXTRA_VALUES)), draw(st.booleans())]
+                for _ in range(draw(st.sampled_from([1, 1, 2])))
+            ]
         if not named:
             f["spans"] = f["spans"][:1]
         feats.append(f)
@@ -137,21 +160,35 @@ def _gff_feats(draw, lat, seqids, n, base=0, named_pc=85):
 def _gb_feats(draw, lat, seqids, n):
     feats = []
     for _ in range(n):
-        feats.append(
-            {
-                "seqid": draw(st.sampled_from(seqids)),
-                "biotype": draw(st.sampled_from(BIOTYPES)),
-                "name": draw(st.sampled_from(NAMES)),
-                "namekey": draw(st.sampled_from(["gene", "gene", "locus_tag", None])),
-                "spans": _spans(draw, lat),
-                "strand": draw(st.sampled_from(["+", "-"])),
-                "attr": _token(draw) if _p(draw, 60) else None,
-                "style": draw(st.integers(0, 1)),
-                "p5": _p(draw, 15),
-                "p3": _p(draw, 15),
-                "point": draw(st.booleans()),
-            }
-        )
+        f = {
+            "seqid": draw(st.sampled_from(seqids)),
+            "biotype": draw(st.sampled_from(BIOTYPES)),
+            "name": draw(st.sampled_from(NAMES)),
+            "namekey": draw(st.sampled_from(["gene", "gene", "locus_tag", None])),
+            "spans": _spans(draw, lat),
+            "strand": draw(st.sampled_from(["+", "-"])),
+            "attr": _token(draw) if _p(draw, 60) else None,
+            "style": draw(st.integers(0, 1)),
+            "p5": _p(draw, 15),
+            "p3": _p(draw, 15),
+            "point": draw(st.booleans()),
+        }
+        nseg = len(f["spans"])
+        if nseg > 1:
+            f["op"] = draw(st.sampled_from(["join", "join", "order"]))
+            f["wrap"] = draw(st.sampled_from([0, 0, 1, 2]))  # line break after every k-th comma
+            f["rot"] = draw(st.sampled_from([0, 0, 0, 1, 2]))  # segments listed in rotated order
+            if _p(draw, 25):
+                # segments on different strands (trans-splicing): per segment, True = complement
+                f["segminus"] = draw(st.lists(st.booleans(), min_size=nseg, max_size=nseg))
+        if _p(draw, 6):
+            f["shift"] = BIG
+        if _p(draw, 7):
+            # a legal GenBank location that parse_location_line does not represent
+            f["ghost"] = draw(st.sampled_from(GHOSTS))
+            f["name"] = draw(st.sampled_from(GHOST_NAMES))
+            f["namekey"] = "gene"
+        feats.append(f)
     return feats
 
 
@@ -206,6 +243,13 @@ def _query(draw, lat, seqids, recs, allow_oa=True, scale=1.0):
         q["attributes"] = tok[i:j]
     if allow_oa and _p(draw, 10):
         q["on_alignment"] = draw(st.booleans())
+    if _p(draw, 15):
+        # tuple / list / set valued arguments select records matching any of the values
+        pools = {"seqid": SEQIDS, "biotype": BIOTYPES, "name": NAMES, "strand": ["+", "-"]}
+        for k in [k for k in ("seqid", "biotype", "name", "strand") if k in q]:
+            if _p(draw, 70):
+                q[k] = [q[k]] + draw(st.lists(st.sampled_from(pools[k]), min_size=0, max_size=2))
+                q["ctype"] = q.get("ctype") or draw(st.sampled_from(["tuple", "list", "set"]))
     wk = draw(st.sampled_from(["none", "both", "both", "both", "both", "start", "stop"]))
     if wk == "both":
         if target is not None and _p(draw, 50):
@@ -344,8 +388,10 @@ def loader_cases(draw):
 
 
 # =================================================================== model
-def _rec(table, seqid, biotype, name, spans, strand, parent, attr, oa):
+def _rec(table, seqid, biotype, name, spans, strand, parent, attr, oa, ghost=False, mixed=False):
     return {
+        "ghost": ghost,  # a GenBank feature whose location cannot be represented: may be skipped or kept without spans
+        "mixed": mixed,  # GenBank feature with segments on both strands: stored without a strand
         "table": table,
         "seqid": seqid,
         "biotype": biotype,
@@ -363,16 +409,29 @@ def user_record(f):
 
 
 def gff_attr_text(f):
-    parts = []
+    extra = f.get("extra") or []
+    parts = [f"{k}={v}" for k, v, first in extra if first]
     if f["name"] is not None and not f["id_last"]:
         parts.append("ID=" + f["name"])
     if f["parent"]:
         parts.append("Parent=" + f["parent"])
     if f["attr"]:
         parts.append("note=" + f["attr"])
+    parts.extend(f"{k}={v}" for k, v, first in extra if not first)
     if f["name"] is not None and f["id_last"]:
         parts.append("ID=" + f["name"])
     return ";".join(parts)
+
+
+def gff_key_suffix(feats):
+    """does some attribute text hold 'ID=' / 'Parent=' as the tail of a longer key before (or without) the real field?"""
+    for f in feats:
+        text = gff_attr_text(f)
+        for key in ("ID=", "Parent="):
+            i = text.find(key)
+            if i > 0 and text[i - 1] != ";":
+                return True
+    return False
 
 
 def gff_text(spec):
@@ -392,8 +451,51 @@ def gff_records(spec):
     ]
 
 
+def gb_spans(f):
+    sh = f.get("shift", 0)
+    return [[a + sh, b + sh] for a, b in f["spans"]]
+
+
+def gb_segminus(f):
+    """per-segment complement flags of a mixed-strand feature (guaranteed to hold both values), else None"""
+    flags = f.get("segminus")
+    n = len(f["spans"])
+    if not flags or n < 2 or f.get("ghost"):
+        return None
+    flags = (list(flags) + [False] * n)[:n]
+    if len(set(flags)) == 1:
+        flags[0] = not flags[0]
+    return flags
+
+
+def _rot(items, k):
+    k = k % len(items)
+    return items[k:] + items[:k]
+
+
+def gb_ghost_location(f, segs, spans):
+    """legal GenBank locations outside the grammar of parse_location_line (a..b, a, < >, join/order/complement)"""
+    kind = f["ghost"]
+    lo, hi = spans[0][0] + 1, spans[0][1]
+    if kind == "between":
+        loc = f"{lo}^{lo + 1}"
+    elif kind == "between-join":
+        loc = "join(" + ",".join(segs + [f"{hi + 1}^{hi + 2}"]) + ")"
+    elif kind == "remote":
+        loc = f"J00194.1:{lo}..{hi}"
+    elif kind == "remote-join":
+        loc = "join(" + ",".join(["J00194.1:100..202"] + segs) + ")"
+    elif kind == "bounds-start":
+        loc = f"({lo}.{lo + 2})..{hi + 2}"
+    elif kind == "bounds-stop":
+        loc = f"{lo}..({hi}.{hi + 2})"
+    else:
+        loc = f"one-of({lo},{lo + 2})..{hi + 2}"
+    return f"complement({loc})" if f["strand"] == "-" else loc
+
+
 def gb_location(f):
-    spans = f["spans"]
+    spans = gb_spans(f)
     n = len(spans)
     segs = []
     for i, (a, b) in enumerate(spans):
@@ -404,12 +506,54 @@ def gb_location(f):
             segs.append(lo)
         else:
             segs.append(("<" if p5 else "") + lo + ".." + (">" if p3 else "") + hi)
+    if f.get("ghost"):
+        return gb_ghost_location(f, segs, spans)
+    op = f.get("op", "join")
+    rot = f.get("rot", 0)
+    flags = gb_segminus(f)
+    if flags:
+        if f["style"] == 0:
+            # runs of complemented segments written as complement(join(...)), in reverse order as GenBank does
+            parts, i = [], 0
+            while i < n:
+                if flags[i]:
+                    j = i
+                    while j < n and flags[j]:
+                        j += 1
+                    run = segs[i:j]
+                    parts.append("complement(" + (run[0] if len(run) == 1 else op + "(" + ",".join(run) + ")") + ")")
+                    i = j
+                else:
+                    parts.append(segs[i])
+                    i += 1
+        else:
+            parts = [f"complement({x})" if m else x for x, m in zip(segs, flags)]
+        return op + "(" + ",".join(_rot(parts, rot)) + ")"
     if f["strand"] == "-":
         if f["style"] == 0 or n == 1:
-            inner = segs[0] if n == 1 else "join(" + ",".join(segs) + ")"
+            inner = segs[0] if n == 1 else op + "(" + ",".join(_rot(segs, rot)) + ")"
             return f"complement({inner})"
-        return "join(" + ",".join(f"complement({x})" for x in reversed(segs)) + ")"
-    return segs[0] if n == 1 else "join(" + ",".join(segs) + ")"
+        return op + "(" + ",".join(f"complement({x})" for x in _rot(list(reversed(segs)), rot)) + ")"
+    return segs[0] if n == 1 else op + "(" + ",".join(_rot(segs, rot)) + ")"
+
+
+def gb_location_lines(f):
+    """the location as written in the feature table: optionally continued on further lines after a comma"""
+    text = gb_location(f)
+    k = f.get("wrap", 0)
+    if not k:
+        return [text]
+    lines, cur, commas = [], "", 0
+    for ch in text:
+        cur += ch
+        if ch == ",":
+            commas += 1
+            if commas % k == 0:
+                lines.append(cur)
+                cur = ""
+    if cur:
+        lines.append(cur)
+    return lines
 
 
 def gb_text(seqid, feats):
@@ -418,7 +562,9 @@ def gb_text(seqid, feats):
         "FEATURES             Location/Qualifiers",
     ]
     for f in feats:
-        lines.append("     " + f["biotype"].ljust(16) + gb_location(f))
+        loc = gb_location_lines(f)
+        lines.append("     " + f["biotype"].ljust(16) + loc[0])
+        lines.extend(" " * 21 + x for x in loc[1:])
         if f["namekey"]:
             lines.append(" " * 21 + f'/{f["namekey"]}="{f["name"]}"')
         if f["attr"]:
@@ -435,7 +581,10 @@ def gb_records(spec):
     for seqid in SEQIDS:  # files are loaded locus by locus
         for f in spec["feats"]:
             if f["seqid"] == seqid:
-                out.append(_rec("gb", seqid, f["biotype"], f["name"] if f["namekey"] else None, f["spans"], f["strand"], None, f["attr"], None))
+                mixed = bool(gb_segminus(f))
+                out.append(
+                    _rec("gb", seqid, f["biotype"], f["name"] if f["namekey"] else None, gb_spans(f), None if mixed else f["strand"], None, f["attr"], None, ghost=bool(f.get("ghost")), mixed=mixed)
+                )
     return out
 
 
@@ -443,19 +592,28 @@ def envelope(r):
     return min(a for a, _ in r["spans"]), max(b for _, b in r["spans"])
 
 
+def _values(v):
+    """the values a query argument selects: a scalar, or any member of a tuple / list / set"""
+    return list(v) if isinstance(v, (list, tuple, set, frozenset)) else [v]
+
+
 def matches(r, q):
     """True / False / None (outcome left open by the documentation)"""
     open_ = False
+    if r.get("ghost"):
+        return False
     for k in ("seqid", "biotype", "name"):
-        if k in q and r[k] != q[k]:
+        if k in q and r[k] not in _values(q[k]):
             return False
     if "strand" in q:
-        if r["strand"] is None:
-            if q["strand"] == "+" and r["table"] == "user":
+        if r.get("mixed"):
+            open_ = True  # no strand is stored for a feature on both strands; which strand query finds it is not documented
+        elif r["strand"] is None:
+            if "+" in _values(q["strand"]) and r["table"] == "user":
                 open_ = True
             else:
                 return False
-        elif r["strand"] != q["strand"]:
+        elif r["strand"] not in _values(q["strand"]):
             return False
     if "attributes" in q and q["attributes"] not in (r["attr"] or ""):
         return False
@@ -505,7 +663,29 @@ def rec_key(r):
 
 # ============================================================ observation
 def _spans_t(spans):
-    return tuple((int(a), int(b)) for a, b in spans)
+    return None if spans is None else tuple((int(a), int(b)) for a, b in spans)
+
+
+def not_ghost(rows):
+    """observed rows without those of GenBank features with an unrepresentable location (identified by their reserved names)"""
+    return [d for d in rows if d.get("name") not in GHOST_NAMES]
+
+
+def real(model):
+    return [r for r in model if not r.get("ghost")]
+
+
+def load_sig(cls, feats, default):
+    """signature stem for the content check right after loading; circumstances of confirmed defects get their own stem
+    (the same in every sub-check) so that the search continues past them"""
+    if cls == "gb":
+        if any(f.get("ghost") == "one-of" for f in feats):
+            return "gb/one-of-location"
+        if any(f.get("ghost") for f in feats):
+            return "gb/unparsed-location"
+    if cls == "gff" and gff_key_suffix(feats):
+        return "gff/attr-key-suffix"
+    return default
 
 
 def obs_feature(d, known):
@@ -542,7 +722,8 @@ def cmp_multiset(s, got, must, may, sig, what):
 
 
 def query_kwargs(q):
-    return {k: v for k, v in q.items()}
+    conv = {"tuple": tuple, "list": list, "set": set}[q.get("ctype", "list")]
+    return {k: (conv(v) if isinstance(v, list) else v) for k, v in q.items() if k != "ctype"}
 
 
 def known_names(case):
@@ -643,21 +824,24 @@ def full_content(s, db, sig, known):
     ok, rows = s.call(sig + "/get_records_matching", lambda: [dict(r) for r in db.get_records_matching()])
     if not ok:
         return None
-    return [obs_record(r, known) for r in rows]
+    return [obs_record(r, known) for r in not_ghost(rows)]
 
 
 def verify_all(s, db, model, sig, known, what):
     """full multiset of records and features, and len, against the harness list"""
+    ghosts = len(model) - len(real(model))
+    model = real(model)
     got = full_content(s, db, sig, known)
     if got is None:
         return False
     if not cmp_multiset(s, got, [rec_key(r) for r in model], [], sig + "/records", what):
         return False  # one root cause, one signature
     ok, feats = s.call(sig + "/get_features_matching", lambda: list(db.get_features_matching()))
-    if not ok or not cmp_multiset(s, [obs_feature(f, known) for f in feats], [feat_key(r) for r in model], [], sig + "/features", what):
+    if not ok or not cmp_multiset(s, [obs_feature(f, known) for f in not_ghost(feats)], [feat_key(r) for r in model], [], sig + "/features", what):
         return False
     ok, n = s.call(sig + "/len", len, db)
-    return bool(ok and s.eq(n, len(model), sig + "/len", what))
+    # a feature whose location cannot be represented may be skipped or kept as a row without spans
+    return bool(ok and s.check(len(model) <= n <= len(model) + ghosts, sig + "/len", f"{what}: len {n} want {len(model)}" + (f"..{len(model) + ghosts}" if ghosts else "")))
 
 
 def close_all(dbs):
@@ -701,6 +885,37 @@ def relation(r, q):
     return "straddle-start" if lo < S else "straddle-stop"
 
 
+def between(s, got, want, slack, sig, what):
+    """got == want, up to the optional counts in slack"""
+    got, want = +got, +want
+    ok = not (want - got) and not ((got - want) - slack)
+    return s.check(ok, sig, f"{what}: got {dict(got)} want {dict(want)}" + (f" (+ up to {dict(slack)})" if slack else ""))
+
+
+def text_classes(s, cls, feats):
+    """coverage classes of the text forms written for a db"""
+    if cls == "gb":
+        for f in feats:
+            if f.get("ghost"):
+                s.cls("gb-loc:unrepresentable:" + f["ghost"])
+                continue
+            if gb_segminus(f):
+                s.cls("gb-loc:mixed-strand")
+            if len(f["spans"]) > 1:
+                s.cls("gb-loc:" + f.get("op", "join"))
+                if f.get("wrap"):
+                    s.cls("gb-loc:wrapped")
+                if f.get("rot"):
+                    s.cls("gb-loc:rotated")
+            if f.get("shift"):
+                s.cls("gb-loc:9-digit")
+    elif cls == "gff":
+        if any(f.get("extra") for f in feats):
+            s.cls("gff-attr:extra-keys")
+        if gff_key_suffix(feats):
+            s.cls("gff-attr:key-ending-in-ID-or-Parent-first")
+
+
 def exec_queries(case) -> Soft:
     s = Soft("C17/")
     tmp, dbs = Tmp(), []
@@ -720,6 +935,7 @@ def _run_queries(s: Soft, case, tmp, dbs):
     if db is None:
         return
     s.cls("class:" + cls, "records:" + ("0" if not model else "1-5" if len(model) <= 5 else "6-12" if len(model) <= 12 else "13+"))
+    text_classes(s, cls, spec["feats"])
     if any(len(r["spans"]) > 1 for r in model):
         s.cls("multi-span")
     if len({r["name"] for r in model if r["name"]}) < len([r for r in model if r["name"]]):
@@ -727,12 +943,13 @@ def _run_queries(s: Soft, case, tmp, dbs):
     if {r["table"] for r in model} >= {"user"} and len({r["table"] for r in model}) > 1:
         s.cls("two-tables")
     what0 = f"{cls} db of {len(model)} records"
-    if not verify_all(s, db, model, f"{cls}/load", known, what0):
+    if not verify_all(s, db, model, load_sig(cls, spec["feats"], f"{cls}/load"), known, what0):
         return  # queries on a wrongly loaded db would only cascade
-    # whole-db summaries
+    # whole-db summaries (rows kept for features without a representable location may or may not be counted)
+    ghosts = [r for r in model if r.get("ghost")]
     ok, bc = s.call("biotype_counts", db.biotype_counts)
     if ok:
-        s.eq(dict(bc), dict(collections.Counter(r["biotype"] for r in model)), "biotype_counts", what0)
+        between(s, collections.Counter(dict(bc)), collections.Counter(r["biotype"] for r in real(model)), collections.Counter(r["biotype"] for r in ghosts), "biotype_counts", what0)
     ok, tab = s.call("count_distinct", lambda: db.count_distinct(seqid=True, biotype=True))
     if ok and tab is not None:
         ok2, rows = s.call("count_distinct", lambda: list(tab.to_dict().values()))
@@ -740,7 +957,9 @@ def _run_queries(s: Soft, case, tmp, dbs):
             agg = collections.Counter()
             for row in rows:
                 agg[(row["seqid"], row["biotype"])] += int(row["count"])
-            s.eq(dict(agg), dict(collections.Counter((r["seqid"], r["biotype"]) for r in model)), "count_distinct", what0)
+            between(
+                s, agg, collections.Counter((r["seqid"], r["biotype"]) for r in real(model)), collections.Counter((r["seqid"], r["biotype"]) for r in ghosts), "count_distinct", what0
+            )
 
     nontrivial, evals = run_query_list(s, db, model, case["queries"], known, what0, dbs)
     # the queried db is unchanged
@@ -762,7 +981,10 @@ def run_query_list(s: Soft, db, model, queries, known, what0, dbs, pre=""):
         s.cls("window:" + wk, "nconds:" + str(min(nconds, 4)))
         for k in conds:
             s.cls("arg:" + k)
-        s.cls("result:" + ("none" if not must else "all" if len(must) == len(model) else "one" if len(must) == 1 else "some"))
+        s.cls("result:" + ("none" if not must else "all" if len(must) == len(real(model)) else "one" if len(must) == 1 else "some"))
+        seqv = "/seq-valued" if "ctype" in q else ""  # tuple / list / set valued arguments (IN clause)
+        if seqv:
+            s.cls("arg-container:" + q["ctype"])
         if may:
             s.cls("open-strand-records")
         if wk in ("partial", "within"):
@@ -781,22 +1003,23 @@ def run_query_list(s: Soft, db, model, queries, known, what0, dbs, pre=""):
         ok, feats = s.call(pre + f"query/get_features_matching{oa}", lambda: list(db.get_features_matching(**kw)))
         if ok:
             evals += 1
-            good = cmp_multiset(s, [obs_feature(f, known) for f in feats], [feat_key(r) for r in must], [feat_key(r) for r in may], pre + f"query/features/window:{wk}", what)
+            good = cmp_multiset(s, [obs_feature(f, known) for f in not_ghost(feats)], [feat_key(r) for r in must], [feat_key(r) for r in may], pre + f"query/features{seqv}/window:{wk}", what)
         # --- get_records_matching (same SQL: one root cause, one signature)
         ok, rows = s.call(pre + f"query/get_records_matching{oa}", lambda: [dict(r) for r in db.get_records_matching(**kw)])
         if ok and good:
             evals += 1
-            good = cmp_multiset(s, [obs_record(r, known) for r in rows], [rec_key(r) for r in must], [rec_key(r) for r in may], pre + f"query/records/window:{wk}", what)
+            good = cmp_multiset(s, [obs_record(r, known) for r in not_ghost(rows)], [rec_key(r) for r in must], [rec_key(r) for r in may], pre + f"query/records{seqv}/window:{wk}", what)
         # --- num_matches (no window arguments)
         if wk == "none":
-            nkw = {k: v for k, v in q.items() if k != "allow_partial"}
+            nkw = {k: v for k, v in kw.items() if k != "allow_partial"}
             tag = "/attributes" if "attributes" in q else ""
             ok, n = s.call(pre + f"query/num_matches{oa}", lambda: db.num_matches(**nkw))
             if ok and good:
                 evals += 1
-                s.check(len(must) <= n <= len(must) + len(may), pre + f"query/num_matches{tag}", f"{what}: got {n} want {len(must)}" + (f"..{len(must) + len(may)}" if may else ""))
+                hi = len(must) + len(may) + (len(model) - len(real(model)))
+                s.check(len(must) <= n <= hi, pre + f"query/num_matches{tag}{seqv}", f"{what}: got {n} want {len(must)}" + (f"..{hi}" if hi > len(must) else ""))
         # --- subset (has no on_alignment argument)
-        skw = {k: v for k, v in q.items() if k != "on_alignment"}
+        skw = {k: v for k, v in kw.items() if k != "on_alignment"}
         smust, smay = select(model, skw)
         ok, sub = s.call(pre + subset_sig(skw), lambda: db.subset(**skw))
         if ok:
@@ -804,7 +1027,7 @@ def run_query_list(s: Soft, db, model, queries, known, what0, dbs, pre=""):
             evals += 1
             got = full_content(s, sub, pre + "subset", known)
             if got is not None and good:
-                cmp_multiset(s, got, [rec_key(r) for r in smust], [rec_key(r) for r in smay], pre + f"subset/window:{window_kind(skw)}", what)
+                cmp_multiset(s, got, [rec_key(r) for r in smust], [rec_key(r) for r in smay], pre + f"subset{seqv}/window:{window_kind(skw)}", what)
             s.check(type(sub) is type(db), pre + "subset/class", f"{what}: {type(sub).__name__}")
     return nontrivial, evals
 
@@ -843,11 +1066,13 @@ def _run_history(s: Soft, case, tmp, dbs):
         if o is None:
             return
         others.append((o, om, sp["cls"]))
-    if not verify_all(s, cur, model, f"{cls}/load", known, f"initial {cls} db"):
+    if not verify_all(s, cur, model, load_sig(cls, case["db"]["feats"], f"{cls}/load"), known, f"initial {cls} db"):
         return
-    for o, om, ocls in others:
-        if not verify_all(s, o, om, f"{ocls}/load", known, f"other {ocls} db"):
+    for (o, om, ocls), sp in zip(others, case["others"]):
+        if not verify_all(s, o, om, load_sig(ocls, sp["feats"], f"{ocls}/load"), known, f"other {ocls} db"):
             return
+    for sp in [case["db"]] + case["others"]:
+        text_classes(s, sp["cls"], sp["feats"])
     s.cls("start:" + cls)
     tainted = False  # source is (or may be) a file path: rich-dict round trips are out of the claimed domain
     merged = serialised = False
@@ -888,7 +1113,7 @@ def _run_history(s: Soft, case, tmp, dbs):
                 return
             dbs.append(new)
             want_cls = cls if TABLES[ocls] <= TABLES[cls] else ocls
-            if om:  # an empty argument is documented falsy: union returns a copy of the receiver
+            if real(om):  # an empty argument is documented falsy: union returns a copy of the receiver
                 s.eq(_cls_of(new), want_cls, f"{cls}/union+{ocls}/class", what)
             model = model + list(om)
             s.cls(f"union:{cls}+{ocls}" if op["other"] != "self" else "union:self")
@@ -898,7 +1123,7 @@ def _run_history(s: Soft, case, tmp, dbs):
             merged = True
             check_prev = True
         elif name == "subset":
-            q = op["q"]
+            q = query_kwargs(op["q"])
             ok, new = s.call(subset_sig(q), lambda: cur.subset(**q))
             if not ok:
                 return
@@ -916,12 +1141,12 @@ def _run_history(s: Soft, case, tmp, dbs):
                 if gc[rec_key(r)] > 0:
                     gc[rec_key(r)] -= 1
                     kept.append(r)
-            model = must + kept
+            model = must + kept + [r for r in model if r.get("ghost")]  # whether rows without spans are copied is left open
             cur = new
             tainted = False
             merged = True
             check_prev = True
-            s.cls("subset:" + window_kind(q), "subset-result:" + ("empty" if not model else "all" if len(model) == len(prev_model) else "some"))
+            s.cls("subset:" + window_kind(q), "subset-result:" + ("empty" if not real(model) else "all" if len(model) == len(prev_model) else "some"))
         elif name == "wrap":
             to = op["cls"]
             if not TABLES[cls] <= TABLES[to] or (tainted and to != cls):
@@ -998,7 +1223,8 @@ def exec_blocks(case) -> Soft:
             split = any(len(b) > 1 for b in blocks.values())
             s.cls("split-feature" if split else "unsplit", f"lines_per_block:{min(n, 4)}")
             s.nontrivial = split
-            verify_all(s, db, model, "gff-blocks/load" + ("/split-feature" if split else ""), known, f"gff rows {len(spec['rows'])}, lines_per_block={n}")
+            text_classes(s, "gff", spec["feats"])
+            verify_all(s, db, model, load_sig("gff", spec["feats"], "gff-blocks/load" + ("/split-feature" if split else "")), known, f"gff rows {len(spec['rows'])}, lines_per_block={n}")
     finally:
         close_all(dbs)
         tmp.cleanup()
@@ -1053,6 +1279,12 @@ def _run_loaders(s: Soft, case, tmp, dbs):
             s.cls("gff:idless-rows-in-several-files")
     # one signature per root cause: the tagged circumstances do not depend on the route
     pre = f"loaders/{kind}/load_annotations{tag}" if tag else f"loaders/{kind}/{route}"
+    allfeats = [f for fl in files for f in fl["feats"]]
+    stem = load_sig(kind, allfeats, None)
+    if stem:
+        pre = stem  # one stem per confirmed root cause, whatever the sub-check and route
+    csig = stem or pre + "/content"
+    text_classes(s, kind, allfeats)
     s.cls("kind:" + kind, "route:" + route, f"files:{len(files)}")
     if keep is not None:
         s.cls("seqids:" + ("str" if isinstance(sq, str) else "list"))
@@ -1100,7 +1332,7 @@ def _run_loaders(s: Soft, case, tmp, dbs):
                 return
             dbs.append(part)
             parts.append(part)
-            if not verify_all(s, part, models[len(parts) - 1], pre + "/content", known, f"{kind} db loaded from file {len(parts) - 1} of {len(files)}"):
+            if not verify_all(s, part, models[len(parts) - 1], csig, known, f"{kind} db loaded from file {len(parts) - 1} of {len(files)}"):
                 return
         db = parts[0]
         for part, pm in zip(parts[1:], models[1:]):
@@ -1139,8 +1371,9 @@ def _run_loaders(s: Soft, case, tmp, dbs):
 
     what0 = f"{kind} db loaded by {route} from {len(files)} files" + (f" seqids={sq}" if keep is not None else "")
     cls = _cls_of(db)
-    s.eq(cls, kind, pre + "/class", what0)
-    if not verify_all(s, db, model, pre + "/content", known, what0):
+    if real(model):  # a db without records is falsy and may be replaced by a default one (collection route)
+        s.eq(cls, kind, pre + "/class", what0)
+    if not verify_all(s, db, model, csig, known, what0):
         return
     if seed is not None:
         # a db of another class passed as db= is copied, not bound
@@ -1214,7 +1447,7 @@ FUZZ = {
 
 META = {
     "technique": "Hypothesis-generated record sets, query lattices and operation histories against a linear-scan list model; GFF3/GenBank text written by the harness with independent coordinate arithmetic",
-    "level_text": "Each run builds about 1 500 databases of the three classes (user-added, GFF3 text, GenBank text) on span lattices where envelopes abut, nest and straddle, asks 8 queries each over the cross-product of optional arguments, window kinds and allow_partial through four query entry points, and replays about 400 histories of merge / subset / copy / serialise operations, comparing record multisets with a plain list model after every step. About 600 further databases are assembled from 1-3 flat files (multi-LOCUS GenBank files, several GFF3 files) through six loading routes with seqids / lines_per_block / write_path options, optionally round-tripped through a serialisation, and queried the same way.",
-    "level_note": "Windows are non-empty and matched by feature envelope; attribute matching is restricted to wildcard-free lower-case text; incompatible class combinations (documented TypeError) and rich-dict round trips of file-backed databases are not driven; get_feature_children/parent are not checked; GFF IDs shared between files and GenBank files with duplicate LOCUS names are not generated.",
+    "level_text": "Each run builds about 1 500 databases of the three classes (user-added, GFF3 text, GenBank text) on span lattices where envelopes abut, nest and straddle, asks 8 queries each over the cross-product of optional arguments, window kinds and allow_partial through four query entry points, and replays about 400 histories of merge / subset / copy / serialise operations, comparing record multisets with a plain list model after every step. About 600 further databases are assembled from 1-3 flat files (multi-LOCUS GenBank files, several GFF3 files) through six loading routes with seqids / lines_per_block / write_path options, optionally round-tripped through a serialisation, and queried the same way. GenBank text uses the location grammar of the feature table definition (join / order / complement nesting, mixed strands, wrapped lines, partial ends, 9-digit coordinates, and unrepresentable between-base / remote / bounds / one-of forms); GFF3 text carries further key=value attributes incl. keys ending in ID / Parent; queries also pass tuple / list / set valued arguments.",
+    "level_note": "GenBank locations the parser cannot represent are only required not to disturb other records (skipped or kept without spans is not decided); windows are non-empty and matched by feature envelope; attribute matching is restricted to wildcard-free lower-case text; incompatible class combinations (documented TypeError) and rich-dict round trips of file-backed databases are not driven; get_feature_children/parent are not checked; GFF IDs shared between files and GenBank files with duplicate LOCUS names are not generated.",
     "design_ref": "DESIGN.md section 1, C17",
 }
